@@ -15,6 +15,15 @@ fn paint_text(text_style: Style, text: &str, addendum: &str) -> String {
     }
 }
 
+/// The raw text, which also has to carry what is added to the text (e.g. "mode +x").
+fn raw_text_with<'a>(raw_text: &'a str, addendum: &str) -> std::borrow::Cow<'a, str> {
+    if addendum.is_empty() {
+        raw_text.into()
+    } else {
+        format!("{raw_text} ({addendum})").into()
+    }
+}
+
 pub type DrawFunction = dyn FnMut(
     &mut dyn Write,
     &str,
@@ -62,7 +71,7 @@ fn write_no_decoration(
     _decoration_style: ansi_term::Style,
 ) -> std::io::Result<()> {
     if text_style.is_raw {
-        writeln!(writer, "{raw_text}")?;
+        writeln!(writer, "{}", raw_text_with(raw_text, addendum))?;
     } else {
         writeln!(writer, "{}", paint_text(text_style, text, addendum))?;
     }
@@ -233,7 +242,7 @@ fn _write_under_or_over_lined(
         _ => write_line(writer)?,
     }
     if text_style.is_raw {
-        writeln!(writer, "{raw_text}")?;
+        writeln!(writer, "{}", raw_text_with(raw_text, addendum))?;
     } else {
         writeln!(writer, "{}", paint_text(text_style, text, addendum))?;
     }
@@ -319,7 +328,7 @@ fn write_boxed_partial(
         decoration_style.paint(down_left),
     )?;
     if text_style.is_raw {
-        write!(writer, "{raw_text}")?;
+        write!(writer, "{}", raw_text_with(raw_text, addendum))?;
     } else {
         write!(writer, "{}", paint_text(text_style, text, addendum))?;
     }
